@@ -1,10 +1,12 @@
 Require Extraction.
 Require Import ExtrOcamlBasic.
 From LH Require Import Base.Bytes Base.Res Model.Lexer Model.Ast Model.Parser Model.Number Model.LuaFront
-  Model.Scope Model.Globals Model.Resolve Spec.LuaScope Proofs.PositionBindBase Proofs.PositionBindFinal.
+  Model.Scope Model.Globals Model.Resolve Model.ResolveWide Spec.LuaScope Spec.LuaScopeWide Proofs.PositionBindBase Proofs.PositionBindFinal.
 Extraction "c05model.ml" extract_anchor tk_code parse_bytes classify_tok
   analyse nodefine_names ws_global text_ok offset_of cut_name complete_prefix
   resolve_at define_at references_at hover_at complete_at
   bind_file in_fragment occ_at has_tag name_has_tag define_ok global_writes spec_refs spec_highlight spec_hover_local
   env_names global_names global_used_names complete_ok decl_later_or_outside split_global global_mixed_levels same_pos_other_file
-  c12_refs_same_decl c12_self_in_refs c12_highlight c12_hover is_local_decl_of laid_b laid2_b no_repoint.
+  c12_refs_same_decl c12_self_in_refs c12_highlight c12_hover is_local_decl_of laid_b laid2_b no_repoint
+  analyse_wide text_ok_wide cut_name_wide complete_prefix_wide complete_at_wide resolve_at_wide define_at_wide references_at_wide hover_at_wide
+  bind_file_wide in_wide has_w_block strs_block near_str.
